@@ -96,6 +96,9 @@ pub mod status;
 #[cfg(feature = "python")]
 pub mod python;
 
+#[cfg(feature = "verif")]
+pub mod verif;
+
 // -- Numerical methods --
 pub mod methods;
 
